@@ -177,9 +177,78 @@ def check_identity(case, ex):
     return {'violations': out, 'stats': stats}
 
 
+def header_case(rng):
+    """The fixed-width ASCII fields (FILE-HEADER SEQUENCE-NUMBER: 10 characters, ID: 65; label set identifier: 60) given at
+    creation or assigned afterwards, at and beyond their widths: written exactly, or the write (or the assignment) raises."""
+    spec = gen.Spec(rng)
+    spec.new_file(mrl=8192)
+    n = rng.choice([0, 1, 64, 65, 65, 66, 70, 130])
+    hid = ''.join(rng.choice('ABCDEFGHIJKLMNOPQRSTUVWXYZ0123456789-_') for _ in range(n))
+    seq = rng.choice([1, 9, 10, 9999999999, 9999999999, 10 ** 10, 10 ** 10 + 7, 123456789012])
+    route = rng.choice(['creation', 'later', 'later'])
+    kw = {}
+    if route == 'creation':
+        kw = {'fh_id': hid, 'fh_sequence_number': seq}
+    lfi = spec.logical_file(**kw)
+    spec.origin(lfi)
+    c = spec.channel(lfi, 'C0', {'dtype': '<f8', 'shape': [2], 'kind': 'ramp', 'start': 1, 'step': 1})
+    spec.frame(lfi, 'F0', [c])
+    hist = list(spec.ops)
+    if route == 'later':
+        o = next(op for op in hist if op.get('op') == 'add' and op['kind'] == 'origin')
+        hist += [{'op': 'set_fh', 'lf': lfi['lf'], 'prop': 'header_id', 'v': hid},
+                 {'op': 'set', 'h': o['h'], 'attr': 'file_id', 'part': 'value', 'v': hid},
+                 {'op': 'set_fh', 'lf': lfi['lf'], 'prop': 'sequence_number', 'v': seq}]
+    sid = None
+    if rng.random() < 0.4:
+        sid = 'S' * rng.choice([1, 59, 60, 61, 70])
+        hist.append({'op': 'set_sul', 'fid': spec.fid, 'prop': 'set_identifier', 'v': sid})
+    hist.append(gen.write_op(spec, path='hdr.dlis'))
+    return {'scenario': {'env': {'tz': 'UTC'}, 'history': hist},
+            'params': {'kind': 'header', 'hid': hid, 'seq': seq, 'sid': sid, 'route': route}}
+
+
+def check_header(case, ex):
+    hist = case['scenario']['history']
+    Pm = case['params']
+    stats = C.new_stats(case)
+    out = []
+    sc, res = C.run(case, ex, [], stats)
+    st = C.last_write(res)
+    fits = len(Pm['hid']) <= 65 and len(str(Pm['seq'])) <= 10 and (Pm['sid'] is None or len(Pm['sid']) <= 60)
+    fp = {'code': 'ASCII-fixed', 'route': Pm['route'], 'fits': fits}
+    stats['nontrivial'] = True
+    accepted = all(s is None or s.get('out') == 'ok' for s in res['steps'][:-1])
+    if st is None or st.get('out') != 'ok' or not accepted:
+        C.bump(stats['probes'], 'fixed_width_rejected' if not fits else 'fixed_width_write_failed')
+        if fits and st is not None and st.get('out') == 'exc' and accepted and not C.rejected_for_size(st):
+            out.append(C.V('C06.raised_on_representable', fp, exc=st.get('exc'), msg=st.get('msg')))
+        return {'violations': out, 'stats': stats}
+    dec = rp66.decode_file(st['file'])
+    C.bump(stats['probes'], 'code_ASCII_fixed_width')
+    if not fits:
+        out.append(C.V('C06.accepted_unrepresentable', fp, id_len=len(Pm['hid']), seq=Pm['seq'], sid_len=len(Pm['sid'] or '')))
+        return {'violations': out, 'stats': stats}
+    try:
+        ho = dec.lfs[0].header.objects[0]
+        got_seq = ho.attrs['SEQUENCE-NUMBER'].values
+        got_id = ho.attrs['ID'].values
+    except Exception as e:
+        out.append(C.V('C06.undecodable', fp, err=repr(e), errors=[x.rule for x in dec.errors][:3]))
+        return {'violations': out, 'stats': stats}
+    if got_seq != [str(Pm['seq']).rjust(10)] or got_id != [Pm['hid'].ljust(65)]:
+        out.append(C.V('C06.decode_mismatch', fp, want=[str(Pm['seq']).rjust(10), Pm['hid'].ljust(65)], got=[got_seq, got_id]))
+    if Pm['sid'] is not None and dec.framing.sul and dec.framing.sul.get('set_identifier') != Pm['sid'].ljust(60):
+        out.append(C.V('C06.decode_mismatch', dict(fp, field='set_identifier'), want=Pm['sid'].ljust(60),
+                       got=dec.framing.sul.get('set_identifier')))
+    return {'violations': out, 'stats': stats}
+
+
 def gen_case(rng, tier, avoid):
     if rng.random() < 0.1:
         return identity_case(rng)
+    if rng.random() < 0.04:
+        return header_case(rng)
     tz = gen.pick(rng, gen.TZS)
     hist = []
     probes = []
@@ -224,6 +293,8 @@ def decode(code, raw):
 def check_case(case, ex):
     if case.get('params', {}).get('kind') == 'identity':
         return check_identity(case, ex)
+    if case.get('params', {}).get('kind') == 'header':
+        return check_header(case, ex)
     hist = case['scenario']['history']
     tz = case['scenario']['env'].get('tz')
     stats = C.new_stats(case)
